@@ -5,7 +5,6 @@ import (
 	"encoding/binary"
 	"encoding/hex"
 	"fmt"
-	"io"
 	"strings"
 
 	"cedarverif/harness/internal/orc"
@@ -111,19 +110,135 @@ func runFraming(c *Ctx) error {
 	for i := 0; i < n; i++ {
 		cases = append(cases, framingRandom(c, i))
 	}
+	// accumulated size: ONE message of 1-3 MiB (only a single frame is bounded by MaxMessageSize)
+	// assembled from many partial sends / buffered writes / by the typed layer, position-dependent
+	// content, received through each receive API
+	modes := []string{"partials", "writes", "typed"}
+	if c.Thorough() {
+		for enc := 0; enc < 2; enc++ {
+			for mi := range modes {
+				for api := 0; api < 3; api++ {
+					cases = append(cases, framingBig(c, enc == 1, modes[mi], api, MiB+c.Rng.Intn(2*MiB)))
+				}
+			}
+		}
+	} else {
+		r := int(c.Seed)
+		cases = append(cases, framingBig(c, r%2 == 1, "partials", 0, MiB+MiB/4+c.Rng.Intn(MiB/2)))
+		cases = append(cases, framingBig(c, r%2 == 0, "writes", 1, MiB+MiB/4+c.Rng.Intn(MiB/2)))
+		cases = append(cases, framingBig(c, true, "typed", 2, 2*MiB+c.Rng.Intn(MiB/2)))
+		cases = append(cases, framingBig(c, c.Rng.Intn(2) == 1, modes[(r+1)%3], (r+2)%3, MiB+c.Rng.Intn(MiB)))
+	}
 	return diffBatch(c, "stream", cases, nil)
 }
 
-func framingFinish(c *Ctx, w *sworld, label string, sent [][]byte, nontrivial bool) Case {
+// bigChunks cuts `total` bytes into many pieces: a run of small ones first (boundary-weighted around
+// the 4 KiB flush threshold), then pieces of 100 KiB .. maxChunk, with a few small ones in between.
+func bigChunks(c *Ctx, total, maxChunk int) []int {
+	var out []int
+	left := total
+	take := func(n int) {
+		if n > left {
+			n = left
+		}
+		if n > 0 {
+			out = append(out, n)
+			left -= n
+		}
+	}
+	for i := 0; i < 12+c.Rng.Intn(12); i++ {
+		take(1 + pickSize(c, false)%6000)
+	}
+	for left > 0 {
+		switch c.Rng.Intn(6) {
+		case 0:
+			take(1 + c.Rng.Intn(5000))
+		case 1:
+			take(maxChunk)
+		default:
+			take(100*1024 + c.Rng.Intn(maxChunk-100*1024))
+		}
+	}
+	return out
+}
+
+func framingBig(c *Ctx, enc bool, mode string, api int, total int) Case {
+	w := framingSetup(c, enc)
+	if !enc && c.Rng.Intn(4) != 0 {
+		// a plaintext session freezes its handshake digests once established (security layer)
+		w.finalize("A")
+		w.finalize("B")
+	}
+	seed := c.Rng.Intn(1 << 20)
+	msg := patBytes(seed, 0, total)
+	w.pat = &patState{seed: seed, msg: msg}
+	ok := true
+	switch mode {
+	case "partials":
+		ch := bigChunks(c, total, MiB-40)
+		off := 0
+		for i, n := range ch {
+			fl := 0
+			if i == len(ch)-1 {
+				fl = 1
+			}
+			if w.send("A", fl, msg[off:off+n]) != nil {
+				ok = false
+				break
+			}
+			off += n
+		}
+	case "writes":
+		w.start("A")
+		ch := bigChunks(c, total, 512*1024)
+		off := 0
+		for _, n := range ch {
+			if w.write("A", msg[off:off+n]) != nil {
+				ok = false
+				break
+			}
+			off += n
+		}
+		if ok && w.end("A") != nil {
+			ok = false
+		}
+	default:
+		if w.typedBytes("A", msg) != nil {
+			ok = false
+		}
+	}
+	w.pat = nil
+	c.Count("kind:big:" + mode + ":" + modeOf(w) + ":" + []string{"recvc", "incr", "mrest"}[api])
+	var sent [][]byte
+	if ok {
+		sent = append(sent, msg)
+	} else {
+		// "of any sizes the sender accepts": every piece here is far below the frame limit, and a message
+		// has no size limit of its own
+		c.Violate(Violation{Property: "C01", Key: "C01:sender-rejects-big-message:" + mode + ":" + modeOf(w), What: "the sender refused a piece of a multi-MiB message although every frame is within the frame limit",
+			Ops: append([]string{}, w.ops...), Expected: "accepted", Observed: w.real[len(w.real)-1]})
+	}
+	return framingFinish(c, w, fmt.Sprintf("big %s total=%d enc=%v api=%d", mode, total, enc, api), sent, true, api)
+}
+
+func framingFinish(c *Ctx, w *sworld, label string, sent [][]byte, nontrivial bool, forceAPI ...int) Case {
 	// receive everything the sender's application sent; property oracle = exact equality
 	api := c.Rng.Intn(3)
+	if len(forceAPI) > 0 {
+		api = forceAPI[0]
+		if api == 2 {
+			api = 3 // typed layer: Message.GetRemainingBytes
+		}
+	}
 	for i, m := range sent {
 		if w.dead {
 			break
 		}
 		var got []byte
 		var err error
-		if api == 0 || (api == 2 && i%2 == 0) {
+		if api == 3 {
+			got, err = w.mrest("B")
+		} else if api == 0 || (api == 2 && i%2 == 0) {
 			got, err = w.recvc("B")
 		} else {
 			err = w.startread("B")
@@ -135,7 +250,7 @@ func framingFinish(c *Ctx, w *sworld, label string, sent [][]byte, nontrivial bo
 				var d []byte
 				d, err = w.read("B", k)
 				got = append(got, d...)
-				if err == io.EOF { // end of this message: the reader need not know lengths in advance
+				if isEOM(err) { // end of this message: the reader need not know lengths in advance
 					err = nil
 					break
 				}
@@ -145,7 +260,7 @@ func framingFinish(c *Ctx, w *sworld, label string, sent [][]byte, nontrivial bo
 			}
 		}
 		if err != nil {
-			c.Violate(Violation{Property: "C01", Key: "C01:recv-rejects-accepted:" + modeOf(w) + ":" + errClass(err),
+			c.Violate(Violation{Property: "C01", Key: "C01:recv-rejects-accepted:" + modeOf(w) + ":" + errKind(err),
 				What: "a message the sender accepted was rejected by the cedar receiver", Ops: append([]string{}, w.ops...),
 				Expected: fmt.Sprintf("message %d of %d bytes delivered", i, len(m)), Observed: err.Error()})
 			break
@@ -413,6 +528,11 @@ func applyFault(stream []byte, frames []refcodec.Frame, f fault) []byte {
 			cp[f.i].Flag ^= 1
 		}
 		return join(cp)
+	case "setflag": // end flag of frame i rewritten to arg (2..10: values the receivers accept in a header; 11, 255: invalid)
+		if f.i < len(cp) {
+			cp[f.i].Flag = byte(f.arg)
+		}
+		return join(cp)
 	}
 	return stream
 }
@@ -452,13 +572,17 @@ func wireSpec(sent []sentFrame, base int, g refcodec.Frame) string {
 }
 
 func runTamper(c *Ctx) error {
-	c.Res.Rule = "honest AES-GCM transcripts (1–4 messages, single/multi-frame, either direction, with/without cleartext prelude) × single faults (every bit of the byte stream for the short transcripts; every frame dropped/duplicated/swapped/replayed/shortened/cut; IV stripped or shifted; forged frames of length 0,1,15,16,17,40 with either flag at every position; end-flag flips) + random 2–3-fault combinations; + reflection (the receiving endpoint's own protected frames fed back to it at any position, IV kept / stripped / the first frame's IV put in front, with no, different and byte-identical cleartext exchanged each way before the key); + transcripts whose nonce word passes 2^32 (streams restored from a crypto-state blob) with every frame dropped/duplicated/swapped/replayed; the harness is the on-path editor between two real keyed streams; distinct by (transcript, fault list); non-trivial = the tampered byte stream differs from the honest one"
+	c.Res.Rule = "honest AES-GCM transcripts (1–4 messages, single/multi-frame, either direction, with/without cleartext prelude) × single faults (every bit of the byte stream for the short transcripts; every frame dropped/duplicated/swapped/replayed/shortened/cut; IV stripped or shifted; forged frames of length 0,1,15,16,17,40 with either flag at every position; end-flag flips) + random 2–3-fault combinations; + reflection (the receiving endpoint's own protected frames fed back to it at any position, IV kept / stripped / the first frame's IV put in front, with no, different and byte-identical cleartext exchanged each way before the key); + transcripts whose nonce word passes 2^32 (streams restored from a crypto-state blob) with every frame dropped/duplicated/swapped/replayed; every fault presented to EVERY receive path (ReceiveCompleteMessage, Message.GetRemainingBytes, StartMessageRead/ReadMessageBytes/EndMessageRead, ReceiveFrame, GetSecret), end flags 0..10 and invalid ones rewritten/forged, transcripts of secrets (PutSecret/GetSecret with encryption switched off around them); the harness is the on-path editor between two real keyed streams; distinct by (transcript, fault list); non-trivial = the tampered byte stream differs from the honest one"
 	var cases []Case
 	nT := c.Pick(3, 10)
-	for t := 0; t < nT; t++ {
+	nS := c.Pick(1, 3) // transcripts of secrets (PutSecret with encryption switched off around them)
+	for t := 0; t < nT+nS; t++ {
 		seedMsgs := tamperTranscript(c, t)
+		if t >= nT {
+			seedMsgs = tamperSecretTranscript(c, t-nT)
+		}
 		// build the honest stream once to enumerate faults
-		probe := tamperRun(c, seedMsgs, nil, false, "recvc")
+		probe := tamperRun(c, seedMsgs, nil, false, tamperProbeAPI(seedMsgs))
 		honest, frames := probe.honest, probe.frames
 		var faults [][]fault
 		// every bit of short transcripts (quick: every byte, 2 bits; thorough: all 8)
@@ -486,19 +610,28 @@ func runTamper(c *Ctx) error {
 			for _, k := range []int{1, 15, 16, 17} {
 				faults = append(faults, []fault{{kind: "shorten", i: i, arg: k}})
 			}
+			// every other end-flag value a header may carry (2..10 pass the receivers' header check and
+			// mean "end of message" to readNextFrame / the typed layer), plus two invalid ones
+			for v := 2; v <= 11; v++ {
+				faults = append(faults, []fault{{kind: "setflag", i: i, arg: v}})
+			}
+			faults = append(faults, []fault{{kind: "setflag", i: i, arg: 255}})
 		}
 		for _, k := range []int{1, 4, 5, 16, 21} {
 			faults = append(faults, []fault{{kind: "cut", arg: k}})
 		}
 		faults = append(faults, []fault{{kind: "stripiv"}})
 		for pos := 0; pos <= len(frames); pos++ {
-			for fl := 0; fl < 2; fl++ {
+			for _, fl := range []int{0, 1, 2, 3, 4, 5, 6, 7, 8, 9, 10} {
 				for _, ln := range []int{0, 1, 15, 16, 17, 40} {
+					if fl >= 2 && ln != 0 && ln != 16 && !c.Thorough() {
+						continue
+					}
 					faults = append(faults, []fault{{kind: "forge", i: pos, j: fl, arg: ln}})
 				}
 			}
 		}
-		kinds := []string{"bitflip", "drop", "dup", "swap", "replay", "shorten", "forge", "flag", "cut"}
+		kinds := []string{"bitflip", "drop", "dup", "swap", "replay", "shorten", "forge", "flag", "cut", "setflag"}
 		for k := 0; k < c.Pick(100, 1500); k++ {
 			var fs []fault
 			for q := 0; q < 2+c.Rng.Intn(2); q++ {
@@ -509,19 +642,41 @@ func runTamper(c *Ctx) error {
 				}
 				if kd == "forge" {
 					f.j = c.Rng.Intn(2)
+					if c.Rng.Intn(3) == 0 {
+						f.j = 2 + c.Rng.Intn(9)
+					}
+				}
+				if kd == "setflag" {
+					f.arg = 2 + c.Rng.Intn(10)
 				}
 				fs = append(fs, f)
 			}
 			faults = append(faults, fs)
 		}
 		cases = append(cases, probe.cs)
+		if seedMsgs.secret {
+			// secrets are only readable through GetSecret (crypto is off on both ends around them)
+			for _, fs := range faults {
+				if fs[0].kind != "bitflip" || c.Rng.Intn(3) == 0 {
+					cases = append(cases, tamperRun(c, seedMsgs, fs, true, "getsecret").cs)
+				}
+			}
+			continue
+		}
+		for _, a := range tamperAPIs[1:] {
+			cases = append(cases, tamperRun(c, seedMsgs, nil, true, a).cs) // honest transcript through every API
+		}
 		for _, fs := range faults {
 			r := tamperRun(c, seedMsgs, fs, true, "recvc")
 			cases = append(cases, r.cs)
-			// the same fault seen through the typed layer (Message.GetRemainingBytes); frame-level faults only
-			if fs[0].kind != "bitflip" || c.Rng.Intn(8) == 0 {
-				r2 := tamperRun(c, seedMsgs, fs, true, "mrest")
-				cases = append(cases, r2.cs)
+			// the same fault seen through every other receive path: the typed layer
+			// (Message.GetRemainingBytes), the incremental API (StartMessageRead/ReadMessageBytes/
+			// EndMessageRead -> readNextFrame), plain ReceiveFrame (what GetFile uses) and GetSecret.
+			// All of them for frame-level faults; a sample of them for the (many) bit flips.
+			for _, a := range tamperAPIs[1:] {
+				if fs[0].kind != "bitflip" || c.Rng.Intn(8) == 0 {
+					cases = append(cases, tamperRun(c, seedMsgs, fs, true, a).cs)
+				}
 			}
 		}
 	}
@@ -685,7 +840,23 @@ type tamperSpec struct {
 	dirAB   bool
 	prelude int
 	wrap    bool       // both ends restored from a crypto-state blob whose base IV word is 2 below 2^32
+	secret  bool       // every message is one PutSecret, sent and read with encryption switched off on both ends
 	msgs    [][][]byte // message → frames
+}
+
+// the receive paths of a keyed stream the adversarial wire is presented to. Message level: recvc =
+// ReceiveCompleteMessage, mrest = Message.GetRemainingBytes (typed layer, ReadFrame), incr =
+// StartMessageRead + ReadMessageBytes* + EndMessageRead (readNextFrame). Frame level: recvp =
+// ReceiveFrame (what GetFile and GetSecret sit on), getsecret = GetSecret.
+var tamperAPIs = []string{"recvc", "mrest", "incr", "recvp", "getsecret"}
+
+func tamperFrameLevel(api string) bool { return api == "recvp" || api == "getsecret" }
+
+func tamperProbeAPI(sp tamperSpec) string {
+	if sp.secret {
+		return "getsecret"
+	}
+	return "recvc"
 }
 
 func tamperTranscript(c *Ctx, t int) tamperSpec {
@@ -699,11 +870,17 @@ func tamperTranscript(c *Ctx, t int) tamperSpec {
 		if t == 0 {
 			nf = 1
 		}
+		if t == 1 && i == nm-1 {
+			nf = 2 + c.Rng.Intn(2) // the last message of this transcript is multi-frame: losing its tail truncates a message
+		}
 		var fr [][]byte
 		for j := 0; j < nf; j++ {
 			n := c.Rng.Intn(12)
 			if t >= 3 && c.Rng.Intn(3) == 0 {
 				n = c.Rng.Intn(200)
+			}
+			if t == 1 && i == nm-1 && j == 0 {
+				n = 1 + c.Rng.Intn(11)
 			}
 			fr = append(fr, randBytes(c, n))
 		}
@@ -712,10 +889,31 @@ func tamperTranscript(c *Ctx, t int) tamperSpec {
 	return sp
 }
 
+func tamperSecretTranscript(c *Ctx, t int) tamperSpec {
+	sp := tamperSpec{dirAB: t%2 == 0, prelude: (t + 1) % 2, secret: true}
+	nm := 2 + c.Rng.Intn(3)
+	for i := 0; i < nm; i++ {
+		n := c.Rng.Intn(14)
+		if i == 1 {
+			n = 0 // the empty secret: one NUL on the wire
+		}
+		sp.msgs = append(sp.msgs, [][]byte{randBytes(c, n)})
+	}
+	return sp
+}
+
 type tamperResult struct {
 	cs     Case
 	honest []byte
 	frames []refcodec.Frame
+}
+
+// stripOneNul: what GetSecret does to a frame's payload
+func stripOneNul(b []byte) []byte {
+	if len(b) > 0 && b[len(b)-1] == 0 {
+		return b[:len(b)-1]
+	}
+	return b
 }
 
 func tamperRun(c *Ctx, sp tamperSpec, fs []fault, count bool, api string) tamperResult {
@@ -744,8 +942,14 @@ func tamperRun(c *Ctx, sp tamperSpec, fs []fault, count bool, api string) tamper
 		w.key("A", 9)
 		w.key("B", 9)
 	}
+	if sp.secret {
+		w.crypto("A", false)
+		w.crypto("B", false)
+	}
 	src := w.ep(from)
 	base := len(src.sent)
+	// what the sender's application sent, in the units the chosen API hands over: whole messages, or
+	// (ReceiveFrame / GetSecret: no end flag is returned) the payload of every frame
 	var msgs [][]byte
 	for _, m := range sp.msgs {
 		var whole []byte
@@ -754,10 +958,24 @@ func tamperRun(c *Ctx, sp tamperSpec, fs []fault, count bool, api string) tamper
 			if j == len(m)-1 {
 				fl = 1
 			}
-			_ = w.send(from, fl, fr)
+			if sp.secret {
+				_ = w.secret(from, fr)
+			} else {
+				_ = w.send(from, fl, fr)
+			}
 			whole = append(whole, fr...)
+			switch {
+			case api == "recvp":
+				msgs = append(msgs, fr)
+			case api == "getsecret" && sp.secret:
+				msgs = append(msgs, fr) // PutSecret appended the NUL GetSecret strips
+			case api == "getsecret":
+				msgs = append(msgs, stripOneNul(fr))
+			}
 		}
-		msgs = append(msgs, whole)
+		if !tamperFrameLevel(api) {
+			msgs = append(msgs, whole)
+		}
 	}
 	honest := append([]byte{}, w.pending[to]...)
 	frames, _ := refcodec.ParseFrames(honest)
@@ -776,32 +994,55 @@ func tamperRun(c *Ctx, sp tamperSpec, fs []fault, count bool, api string) tamper
 	w.pending[to] = nil
 	w.ep(to).c.Feed(tampered)
 	w.log(strings.TrimRight("wire "+to+" "+strings.Join(specs, " "), " "), "ok")
-	// first affected message: the message containing the first frame at which the wire deviates
+	// first affected unit: the message (frame, for the frame-level APIs) containing the first frame at
+	// which the wire deviates
 	firstBad := len(msgs)
 	if changed {
 		k := 0
 		for k < len(tf) && k < len(frames) && bytes.Equal(tf[k].Bytes(), frames[k].Bytes()) {
 			k++
 		}
-		// message index of frame k
-		idx, acc := 0, 0
-		for mi, m := range sp.msgs {
-			if k < acc+len(m) {
-				idx = mi
-				break
+		if tamperFrameLevel(api) {
+			firstBad = k
+		} else {
+			// message index of frame k
+			idx, acc := 0, 0
+			for mi, m := range sp.msgs {
+				if k < acc+len(m) {
+					idx = mi
+					break
+				}
+				acc += len(m)
+				idx = mi + 1
 			}
-			acc += len(m)
-			idx = mi + 1
+			firstBad = idx
 		}
-		firstBad = idx
 	}
 	var delivered [][]byte
 	for i := 0; i < len(msgs)+3; i++ {
 		var m []byte
 		var err error
-		if api == "mrest" {
+		switch api {
+		case "mrest":
 			m, err = w.mrest(to)
-		} else {
+		case "recvp":
+			m, err = w.recvp(to)
+		case "getsecret":
+			m, err = w.getsecret(to)
+		case "incr":
+			// the application neither knows the length in advance nor looks at anything but what the
+			// three calls return: bytes until end-of-message, then EndMessageRead must agree
+			err = w.startread(to)
+			for err == nil {
+				var d []byte
+				d, err = w.read(to, 1+c.Rng.Intn(40))
+				m = append(m, d...)
+				if isEOM(err) {
+					err = w.endread(to)
+					break
+				}
+			}
+		default:
 			m, err = w.recvc(to)
 		}
 		if err != nil {
@@ -810,19 +1051,29 @@ func tamperRun(c *Ctx, sp tamperSpec, fs []fault, count bool, api string) tamper
 		delivered = append(delivered, m)
 	}
 	// property oracle C02: delivered is an exact prefix, and stops at or before the first affected message
+	unit := "message"
+	if tamperFrameLevel(api) {
+		unit = "frame"
+	}
 	bad := ""
 	if len(delivered) > len(msgs) {
-		bad = "extra message delivered"
+		bad = "extra " + unit + " delivered"
 	} else {
 		for i := range delivered {
 			if !bytes.Equal(delivered[i], msgs[i]) {
-				bad = fmt.Sprintf("message %d altered", i)
+				bad = fmt.Sprintf("%s %d altered", unit, i)
 				break
 			}
 		}
 	}
 	if bad == "" && len(delivered) > firstBad {
-		bad = fmt.Sprintf("message %d delivered although the wire was tampered with at or before it", firstBad)
+		bad = fmt.Sprintf("%s %d delivered although the wire was tampered with at or before it", unit, firstBad)
+	}
+	if bad == "" && !changed && len(delivered) != len(msgs) {
+		// not the adversary's doing: the honest transcript must arrive completely through every API (C01's
+		// claim; reported here because a receive path that fails closed on honest traffic makes the C02
+		// verdicts of that path vacuous)
+		bad = fmt.Sprintf("honest: only %d of %d %ss of an untouched transcript were delivered", len(delivered), len(msgs), unit)
 	}
 	if bad != "" {
 		var fk []string
@@ -830,7 +1081,7 @@ func tamperRun(c *Ctx, sp tamperSpec, fs []fault, count bool, api string) tamper
 			fk = append(fk, f.kind)
 		}
 		c.Violate(Violation{Property: "C02", Key: "C02:" + api + ":" + strings.Join(fk, "+") + ":" + strings.SplitN(bad, " ", 2)[0],
-			What: bad, Ops: append([]string{}, w.ops...), Expected: fmt.Sprintf("a prefix of %d sent messages, at most %d of them", len(msgs), firstBad),
+			What: bad, Ops: append([]string{}, w.ops...), Expected: fmt.Sprintf("a prefix of %d sent %ss, at most %d of them", len(msgs), unit, firstBad),
 			Observed: fmt.Sprintf("%d delivered; faults=%v", len(delivered), fs)})
 	}
 	w.finish()
@@ -844,44 +1095,98 @@ func tamperRun(c *Ctx, sp tamperSpec, fs []fault, count bool, api string) tamper
 		if len(fs) > 1 {
 			c.Count("multi-fault")
 		}
+		if sp.secret {
+			c.Count("secret-transcript")
+		}
 		c.Count(fmt.Sprintf("delivered:%d", len(delivered)))
 		if changed && c.Rng.Intn(400) == 0 {
 			c.Sample(map[string]any{"faults": fmt.Sprint(fs), "ops": abbreviate(w.ops), "real": abbreviate(w.real)})
 		}
 	}
-	return tamperResult{cs: Case{Label: fmt.Sprintf("tamper %v", fs), Ops: w.ops, Real: w.real}, honest: honest, frames: frames}
+	return tamperResult{cs: Case{Label: fmt.Sprintf("tamper %s %v", api, fs), Ops: w.ops, Real: w.real}, honest: honest, frames: frames}
 }
 
 /* ---------------------------------------------------------------- gcmformat (C12) */
 
 func runGcmFormat(c *Ctx) error {
 	drawnIVs = nil
-	c.Res.Rule = "all base IVs drawn by SetSymmetricKey during the run pairwise distinct; send histories: cleartext prelude of every shape (none, one way, both ways, empty frames), SetSymmetricKey on both ends, interleaved sends in both directions (sizes incl. 0), secrets sent with encryption toggled off, counters started near 2^32 through NewStreamWithCryptoState; every emitted frame is opened by the independent refcodec (nonce = base IV + counter in the leading word, IV on first frame only, AAD = [digests] header) and refcodec-built frames are fed to the real receiver; distinct by op-sequence hash; non-trivial = ≥1 sealed frame"
+	c.Res.Rule = "all base IVs drawn by SetSymmetricKey during the run pairwise distinct, also in their last 12 bytes, every byte position varying; every (key, 16-byte nonce) pair of the run used once across endpoints, directions and sessions; send histories: cleartext prelude of every shape (none, one way, both ways, empty frames), SetSymmetricKey on both ends, interleaved sends in both directions (sizes incl. 0), secrets sent with encryption toggled off, counters started near 2^32 through NewStreamWithCryptoState and driven to the limit through every sending API (SendMessage, SendPartialMessage, WriteMessage flush, EndMessage, PutSecret with encryption on/off, typed Message FlushFrame/FinishMessage), the refusal checked on the bytes really written to the connection; every emitted frame is opened by the independent refcodec (nonce = base IV + counter in the leading word, IV on first frame only, AAD = [digests] header) and refcodec-built frames are fed to the real receiver; distinct by op-sequence hash; non-trivial = ≥1 sealed frame"
 	var cases []Case
 	n := c.Pick(500, 8000)
 	for i := 0; i < n; i++ {
 		cases = append(cases, gcmHistory(c, i))
 	}
-	for i := 0; i < c.Pick(40, 300); i++ {
+	for i := 0; i < c.Pick(120, 600); i++ {
 		cases = append(cases, gcmNearWrap(c, i))
 	}
 	for i := 0; i < c.Pick(150, 2000); i++ {
 		cases = append(cases, gcmRefSender(c, i))
 	}
-	// "the base IV (fresh and distinct for every direction and session)": every IV drawn by a
-	// SetSymmetricKey call in this run — both directions of every session — differs from every other
-	seenIV := map[[16]byte]string{}
-	for _, d := range drawnIVs {
-		if prev, dup := seenIV[d.iv]; dup {
-			c.Violate(Violation{Property: "C12", Key: "C12:base-iv-repeated", What: "two key installations (two directions of a session, or two sessions) used the same base IV: with one key per session this repeats key/nonce pairs",
-				Ops: []string{"# " + prev, "# " + d.where}, Expected: "a fresh random IV per SetSymmetricKey call", Observed: fmt.Sprintf("IV %x twice", d.iv)})
-			break
-		}
-		seenIV[d.iv] = d.where
-	}
-	c.Count(fmt.Sprintf("base-ivs-drawn:%d-all-distinct:%v", len(drawnIVs)/100*100, len(seenIV) == len(drawnIVs)))
+	checkDrawnIVs(c)
 	return diffBatch(c, "stream", cases, nil)
 }
+
+// checkDrawnIVs is the IV-freshness half of the C12 property oracle, on the base IVs that all
+// SetSymmetricKey calls of the run drew (read back from the wire: both directions of every session,
+// re-keying included). "Fresh" is crypto/rand's in the model, so this is judged on the implementation only:
+//   - no two draws are the same 16 bytes;
+//   - no two draws agree in their LAST 12 bytes: the nonce is the base IV with only its leading 32-bit
+//     word advanced by the frame counter, and both directions of a session (and every session resumed
+//     under one key) share the key, so two IVs with equal tails yield the same (key, nonce) pair as soon
+//     as word+counter line up — the freshness the format needs lives in the tail;
+//   - the draws look drawn: every one of the 16 byte positions takes many different values over the run
+//     (a constant position, a partly random IV such as rand.Read(iv[:4]), a time- or counter-derived IV
+//     or one derived from the key are not fresh). The bound is far below what uniform bytes give
+//     (>= 64 distinct values per position expected ~250 for >= 400 draws), so it never fires by chance.
+func checkDrawnIVs(c *Ctx) {
+	seenIV := map[[16]byte]string{}
+	seenTail := map[[12]byte]string{}
+	dupIV, dupTail := false, false
+	for _, d := range drawnIVs {
+		if prev, dup := seenIV[d.iv]; dup && !dupIV {
+			dupIV = true
+			c.Violate(Violation{Property: "C12", Key: "C12:base-iv-repeated", What: "two key installations (two directions of a session, or two sessions) used the same base IV: with one key per session this repeats key/nonce pairs",
+				Ops: append(append([]string{}, d.ops...), "# the next send carries the IV of: "+d.where, "# same IV as: "+prev), Expected: "a fresh random IV per SetSymmetricKey call", Observed: fmt.Sprintf("IV %x twice", d.iv)})
+		}
+		seenIV[d.iv] = d.where
+		var t [12]byte
+		copy(t[:], d.iv[4:])
+		if prev, dup := seenTail[t]; dup && !dupTail && !dupIV {
+			dupTail = true
+			c.Violate(Violation{Property: "C12", Key: "C12:base-iv-tail-repeated", What: "two key installations drew base IVs that agree in their last 12 bytes: only the leading 32-bit word separates their nonce sequences, and the frame counter is added to exactly that word — under the one key both directions of a session share, the (key, nonce) pairs coincide once word+counter line up",
+				Ops: append(append([]string{}, d.ops...), "# the next send carries the IV of: "+d.where, "# same tail as: "+prev), Expected: "base IVs whose 12-byte tails are pairwise distinct (16 fresh random bytes per SetSymmetricKey call)", Observed: fmt.Sprintf("tail %x twice (IVs differ at most in the leading word)", t)})
+		}
+		seenTail[t] = d.where
+	}
+	n := len(drawnIVs)
+	minDistinct := 0
+	if n >= 400 {
+		minDistinct = 64
+	} else if n >= 64 {
+		minDistinct = n / 8
+	}
+	if minDistinct > 0 && !dupIV {
+		for pos := 0; pos < 16; pos++ {
+			vals := map[byte]bool{}
+			for _, d := range drawnIVs {
+				vals[d.iv[pos]] = true
+			}
+			if len(vals) < minDistinct {
+				w0, w1 := drawnIVs[0], drawnIVs[n-1]
+				c.Violate(Violation{Property: "C12", Key: "C12:base-iv-not-random", What: fmt.Sprintf("byte %d of the base IV takes only %d different value(s) over %d key installations: the IV is not 16 fresh random bytes", pos, len(vals), n),
+					Ops:      []string{"# " + w0.where + fmt.Sprintf(": IV %x", w0.iv), "# " + w1.where + fmt.Sprintf(": IV %x", w1.iv)},
+					Expected: fmt.Sprintf("every byte position takes >= %d different values over %d draws (uniform bytes give far more)", minDistinct, n),
+					Observed: fmt.Sprintf("position %d: %d distinct value(s)", pos, len(vals))})
+				break
+			}
+		}
+	}
+	c.Count(fmt.Sprintf("base-ivs-drawn:%d-all-distinct:%v-tails-distinct:%v", n/100*100, len(seenIV) == n, len(seenTail) == n))
+}
+
+// every (key, full 16-byte nonce) pair under which the reference decryptor opened a frame emitted by a
+// REAL stream during this engine run — all endpoints, directions, sessions and hand-offs of the run
+var runNonces = map[[20]byte]string{}
 
 func gcmHistory(c *Ctx, idx int) Case {
 	w := newWorld()
@@ -957,6 +1262,30 @@ func checkOpenable(c *Ctx, w *sworld) {
 			return
 		}
 	}
+	// "no key/nonce pair is used twice": across BOTH endpoints of the session (they share one key) and
+	// across every other session of the run keyed alike — the full 16-byte nonce, not only its leading word
+	for _, e := range []*sep{w.a, w.b} {
+		for _, sf := range e.sent {
+			if !sf.opened {
+				continue
+			}
+			var id [20]byte
+			binary.BigEndian.PutUint32(id[:4], uint32(sf.keyID))
+			copy(id[4:], sf.nonce[:])
+			here := fmt.Sprintf("endpoint %s, op %d", e.name, sf.opIdx)
+			if prev, dup := runNonces[id]; dup {
+				upto := sf.opIdx + 1
+				if upto > len(w.ops) {
+					upto = len(w.ops)
+				}
+				c.Violate(Violation{Property: "C12", Key: "C12:key-nonce-pair-reused", What: "two protected frames were sealed under the same key and the same 16-byte nonce (other direction of the session, or another session under the same key)",
+					Ops: append(append([]string{}, w.ops[:upto]...), "# same (key, nonce) earlier: "+prev), Expected: "every (key, nonce) pair used once",
+					Observed: fmt.Sprintf("key %d nonce %x at %s and at %s", sf.keyID, sf.nonce, prev, here)})
+				return
+			}
+			runNonces[id] = fmt.Sprintf("%s of case #%d", here, c.Res.Evaluations)
+		}
+	}
 	for _, e := range []*sep{w.a, w.b} {
 		seen := map[string]int{}
 		for i, r := range w.real {
@@ -983,40 +1312,125 @@ func checkOpenable(c *Ctx, w *sworld) {
 	}
 }
 
+// the sending APIs of a stream, each used so that an accepted call puts exactly ONE frame on the wire:
+// SendMessage, SendPartialMessage, the buffered writer flushing at the 4 KiB threshold (WriteMessage ->
+// flushPartialFrame), the buffered writer's EndMessage, PutSecret (encryption on, and switched off around
+// it), and the typed layer (Message.PutBytes + FlushFrame(false) / FinishMessage -> WriteFrame)
+var wrapAPIs = []string{"send1", "send0", "wflush", "wend", "secret", "secret-off", "typed0", "typed1"}
+
+// emitVia sends one frame's worth of data through the named API; returns the error of the call that
+// would put the frame on the wire.
+func (w *sworld) emitVia(c *Ctx, n, api string) error {
+	small := randBytes(c, c.Rng.Intn(10))
+	switch api {
+	case "send1":
+		return w.send(n, 1, small)
+	case "send0":
+		return w.send(n, 0, small)
+	case "wflush":
+		w.start(n)
+		return w.write(n, fillBytes(4096+c.Rng.Intn(8), byte(0x61+c.Rng.Intn(20))))
+	case "wend":
+		w.start(n)
+		if err := w.write(n, small); err != nil {
+			return err
+		}
+		return w.end(n)
+	case "secret":
+		return w.secret(n, bytes.ReplaceAll(small, []byte{0}, []byte{1}))
+	case "secret-off":
+		w.crypto(n, false)
+		err := w.secret(n, bytes.ReplaceAll(small, []byte{0}, []byte{1}))
+		w.crypto(n, true)
+		return err
+	case "typed0":
+		return w.typedFrame(n, small, false)
+	default: // typed1
+		return w.typedFrame(n, small, true)
+	}
+}
+
 func gcmNearWrap(c *Ctx, idx int) Case {
 	w := newWorld()
 	start := uint32(0xffffffff - uint32(c.Rng.Intn(4)))
-	var iv [16]byte
+	var iv, ivB [16]byte
 	copy(iv[:], randBytes(c, 16))
+	copy(ivB[:], randBytes(c, 16))
 	if c.Rng.Intn(2) == 0 {
 		binary.BigEndian.PutUint32(iv[:4], 0xfffffffe) // nonce word wraps while the counter does not
 	}
-	fa := &blobFields{flags: 1 | 4 | 8, key: keyBytes(5), eiv: iv, div: iv, ectr: start, dctr: 1, fs: make([]byte, 32), fr: make([]byte, 32)}
-	fb := &blobFields{flags: 1 | 4 | 8, key: keyBytes(5), eiv: iv, div: iv, ectr: 1, dctr: start, fs: make([]byte, 32), fr: make([]byte, 32)}
+	fa := &blobFields{flags: 1 | 4 | 8, key: keyBytes(5), eiv: iv, div: ivB, ectr: start, dctr: 1, fs: make([]byte, 32), fr: make([]byte, 32)}
+	fb := &blobFields{flags: 1 | 4 | 8, key: keyBytes(5), eiv: ivB, div: iv, ectr: 1, dctr: start, fs: make([]byte, 32), fr: make([]byte, 32)}
 	_ = w.importBlob("A", buildBlob(fa))
 	_ = w.importBlob("B", buildBlob(fb))
+	// the first cases walk every API up to the limit on its own; the rest mix them
+	only := ""
+	if idx < 2*len(wrapAPIs) {
+		only = wrapAPIs[idx%len(wrapAPIs)]
+		if idx < len(wrapAPIs) {
+			start = 0xffffffff // the very next frame is the one that must be refused
+			fa.ectr, fb.dctr = start, start
+			w = newWorld()
+			_ = w.importBlob("A", buildBlob(fa))
+			_ = w.importBlob("B", buildBlob(fb))
+		}
+	}
+	pickAPI := func() string {
+		if only != "" {
+			return only
+		}
+		return wrapAPIs[c.Rng.Intn(len(wrapAPIs))]
+	}
+	a := w.ep("A")
+	// the counter the next frame would use = start + frames REALLY put on the connection so far (counted
+	// on the connection, not inferred from the API used: when a buffered write flushes is the library's
+	// business — a call that only buffers consumes no counter value and cannot be refused)
+	ctr := uint64(start)
+	framesIn := func(b []byte) int { fr, _ := refcodec.ParseFrames(b); return len(fr) }
 	for i := 0; i < 5; i++ {
-		if err := w.send("A", 1, randBytes(c, c.Rng.Intn(10))); err != nil {
-			if start+uint32(i) != 0xffffffff {
-				c.Violate(Violation{Property: "C12", Key: "C12:early-refusal", What: "send refused before the counter limit", Ops: w.ops, Expected: "ok", Observed: err.Error()})
+		api := pickAPI()
+		before := len(a.c.AllOut)
+		err := w.emitVia(c, "A", api)
+		wrote := a.c.AllOut[before:]
+		if err != nil {
+			if ctr != 0xffffffff {
+				c.Violate(Violation{Property: "C12", Key: "C12:early-refusal:" + api, What: "send refused before the counter limit", Ops: append([]string{}, w.ops...), Expected: "ok", Observed: err.Error()})
+				break
 			}
-			// the refusal is permanent: a caller that keeps sending is refused every time, and
-			// nothing reaches the wire (a counter that wrapped on the refused attempt would start
-			// again at the base IV — the nonce of the session's first frame)
-			for k := 0; k < 3; k++ {
-				before := len(w.pending["B"])
-				if err2 := w.send("A", 1, randBytes(c, 1+c.Rng.Intn(10))); err2 == nil || len(w.pending["B"]) != before {
-					c.Violate(Violation{Property: "C12", Key: "C12:refusal-not-permanent", What: "after refusing to send at the counter limit the stream sent a later frame (the counter wrapped)", Ops: append([]string{}, w.ops...), Expected: "err counterMax again, nothing written", Observed: fmt.Sprintf("attempt %d after the refusal: err=%v, %d bytes written", k+1, err2, len(w.pending["B"])-before)})
+			if len(wrote) != 0 {
+				c.Violate(Violation{Property: "C12", Key: "C12:refused-send-wrote-bytes:" + api, What: "the call that refused to send at the counter limit nevertheless wrote bytes to the connection", Ops: append([]string{}, w.ops...), Expected: "nothing written", Observed: fmt.Sprintf("%d bytes written by the refused call", len(wrote))})
+			}
+			// the refusal is permanent, whatever API the caller tries next: NOTHING reaches the connection
+			// any more (a counter that wrapped on a refused attempt would start again at the base IV — the
+			// nonce of the session's first frame). Judged on the bytes on the connection itself: the world
+			// discards the output of a failed call, and a call that merely buffers may well return nil.
+			for k := 0; k < 4; k++ {
+				api2 := wrapAPIs[c.Rng.Intn(len(wrapAPIs))]
+				before := len(a.c.AllOut)
+				err2 := w.emitVia(c, "A", api2)
+				if n := len(a.c.AllOut) - before; n != 0 {
+					c.Violate(Violation{Property: "C12", Key: "C12:refusal-not-permanent:" + api2, What: "after refusing to send at the counter limit the stream sent a later frame (the counter wrapped)", Ops: append([]string{}, w.ops...), Expected: "nothing written after the refusal", Observed: fmt.Sprintf("attempt %d (%s) after the refusal: err=%v, %d bytes written to the connection", k+1, api2, err2, n)})
 					break
 				}
 			}
 			break
 		}
-		if uint64(start)+uint64(i) >= 0xffffffff {
-			c.Violate(Violation{Property: "C12", Key: "C12:counter-wrap", What: "stream sent a frame at/after the counter limit instead of refusing", Ops: w.ops, Expected: "err counterMax", Observed: "ok"})
+		n := framesIn(wrote)
+		if n > 0 && ctr+uint64(n) > 0xffffffff {
+			c.Violate(Violation{Property: "C12", Key: "C12:counter-wrap:" + api, What: "stream sent a frame at/after the counter limit instead of refusing (through " + api + ")", Ops: append([]string{}, w.ops...), Expected: "err counterMax", Observed: fmt.Sprintf("ok, %d frame(s) / %d bytes written", n, len(wrote))})
 			break
 		}
-		if _, _, err := w.recvf("B"); err != nil {
+		ctr += uint64(n)
+		for j := 0; j < n && err == nil; j++ {
+			if api == "secret-off" {
+				w.crypto("B", false)
+				_, err = w.getsecret("B")
+				w.crypto("B", true)
+			} else {
+				_, _, err = w.recvf("B")
+			}
+		}
+		if err != nil {
 			break
 		}
 	}
@@ -1024,6 +1438,9 @@ func gcmNearWrap(c *Ctx, idx int) Case {
 	w.finish()
 	c.Distinct(strings.Join(w.ops, "\n"), true)
 	c.Count("kind:nearwrap")
+	if only != "" {
+		c.Count("nearwrap-api:" + only)
+	}
 	if idx == 0 {
 		c.Sample(map[string]any{"ops": abbreviate(w.ops), "real": abbreviate(w.real)})
 	}
@@ -1122,17 +1539,52 @@ func runHandoff(c *Ctx) error {
 	return diffBatch(c, "stream", cases, nil)
 }
 
+// tryExport calls ExportCryptoState on `who` and applies the part of the C15 property oracle that needs
+// no model: "export is refused whenever the stream ... holds any partially sent or partially consumed
+// message" — judged from what the harness itself did to the endpoint (it is between StartMessageRead and
+// EndMessageRead; it handed bytes to WriteMessage that are not on the wire yet).
+func tryExport(c *Ctx, w *sworld, who string) ([]byte, error) {
+	e := w.ep(who)
+	why := ""
+	switch {
+	case e.inRead:
+		why = "inbound-message-being-read"
+	case e.bufferedOut > 0:
+		why = "outbound-bytes-buffered"
+	}
+	blob, err := w.export(who)
+	if err == nil && why != "" {
+		c.Violate(Violation{Property: "C15", Key: "C15:export-accepted-mid-message:" + why, What: "ExportCryptoState returned a blob although the stream holds a partially sent or partially consumed message (" + why + ")",
+			Ops: append([]string{}, w.ops...), Expected: "refused", Observed: fmt.Sprintf("a %d-byte blob", len(blob))})
+	}
+	return blob, err
+}
+
+var handoffSeq int
+
 func handoffHistory(c *Ctx, idx int) Case {
-	w := newWorld()
+	w := newWorldAddr()
 	if c.Rng.Intn(4) != 0 {
 		prelude(c, w, 3)
 	}
 	if c.Rng.Intn(12) == 0 {
 		// export before any key
-		_, _ = w.export("A")
+		_, _ = tryExport(c, w, "A")
 	}
 	w.key("A", 21)
 	w.key("B", 21)
+	// the session's identity as the security layer would record it after the handshake
+	for _, n := range []string{"A", "B"} {
+		switch c.Rng.Intn(4) {
+		case 0:
+			w.setauth(n, true)
+		case 1:
+			w.setauth(n, true)
+			w.setpeer(n, pick(c, []string{"<203.0.113.9:9618?sock=collector>", "<[2001:db8::7]:9618>", "<192.0.2.7:9618>"}))
+		case 2:
+			w.setpeer(n, pick(c, []string{"<203.0.113.9:9618?sock=collector>", ""}))
+		}
+	}
 	steps := 2 + c.Rng.Intn(10)
 	traffic := 0
 	tried := false
@@ -1143,14 +1595,14 @@ func handoffHistory(c *Ctx, idx int) Case {
 			from = "B"
 		}
 		to := w.peer(from).name
-		switch c.Rng.Intn(7) {
+		switch c.Rng.Intn(10) {
 		case 0: // leave a partial outbound message, try export, then finish it
 			w.start(from)
 			_ = w.write(from, randBytes(c, 1+c.Rng.Intn(30)))
-			_, _ = w.export(from)
+			_, _ = tryExport(c, w, from)
 			tried = tried || traffic > 0
 			_ = w.end(from)
-			_, _ = w.export(from) // sendEOM pending
+			_, _ = tryExport(c, w, from) // sendEOM pending
 			w.start(from)
 			_, _ = w.recvc(to)
 			traffic++
@@ -1159,7 +1611,7 @@ func handoffHistory(c *Ctx, idx int) Case {
 			_ = w.send(from, 1, d)
 			if w.startread(to) == nil {
 				_, _ = w.read(to, 1)
-				_, _ = w.export(to)
+				_, _ = tryExport(c, w, to)
 				tried = true
 				_, _ = w.read(to, len(d))
 				_ = w.endread(to)
@@ -1173,6 +1625,54 @@ func handoffHistory(c *Ctx, idx int) Case {
 					Ops: append([]string{}, w.ops...), Expected: "refused", Observed: fmt.Sprintf("a %d-byte blob", len(blob))})
 			}
 			w.crypto(from, true)
+		case 3: // a message "in progress" of which NOTHING has been consumed yet (bytesRead = 0): possibly an
+			// empty one, possibly multi-frame; export at every point of the incremental read
+			var d []byte
+			if c.Rng.Intn(3) != 0 {
+				d = randBytes(c, 1+c.Rng.Intn(30))
+			}
+			if c.Rng.Intn(2) == 0 && len(d) > 1 {
+				_ = w.send(from, 0, d[:len(d)/2])
+				_ = w.send(from, 1, d[len(d)/2:])
+			} else {
+				_ = w.send(from, 1, d)
+			}
+			if w.startread(to) == nil {
+				_, _ = tryExport(c, w, to) // inMessage, bytesRead = 0
+				tried = true
+				if len(d) > 0 {
+					_, _ = w.read(to, len(d))
+					_, _ = tryExport(c, w, to) // everything consumed, EndMessageRead not called yet
+				}
+				_, _ = w.read(to, 1) // end of message
+				_ = w.endread(to)
+			}
+			traffic++
+		case 4: // unread inbound bytes are waiting on the connection (a whole message, or part of one) while the
+			// stream itself holds nothing: export is legitimate, and whoever continues the session reads them
+			d := randBytes(c, 1+c.Rng.Intn(30))
+			_ = w.send(from, 1, d)
+			w.deliver(to)
+			blob, err := tryExport(c, w, to)
+			tried = tried || traffic > 0
+			if err == nil && c.Rng.Intn(2) == 0 {
+				handoffSeq++
+				if w.importBlobAround(to, blob, fmt.Sprintf("@handoff-%d", handoffSeq)) == nil {
+					handoffs++
+				}
+			}
+			got, rerr := w.recvc(to)
+			if err == nil && (rerr != nil || !bytes.Equal(got, d)) {
+				c.Violate(Violation{Property: "C15", Key: "C15:unread-inbound-lost", What: "a message that was waiting unread on the connection when the crypto state was exported was not delivered afterwards",
+					Ops: append([]string{}, w.ops...), Expected: orc.ShowBytes(d), Observed: fmt.Sprint(rerr, " ", orc.ShowBytes(got))})
+			}
+			traffic++
+		case 5: // identity changes mid-session (re-authentication, address rewritten by the application)
+			if c.Rng.Intn(2) == 0 {
+				w.setauth(from, c.Rng.Intn(2) == 0)
+			} else {
+				w.setpeer(from, pick(c, []string{"<203.0.113.9:9618?sock=collector>", "<192.0.2.99:1>", ""}))
+			}
 		default:
 			_ = w.send(from, 1, randBytes(c, c.Rng.Intn(40)))
 			_, _ = w.recvc(to)
@@ -1186,11 +1686,31 @@ func handoffHistory(c *Ctx, idx int) Case {
 		if w.dead {
 			break
 		}
-		blob, err := w.export(who)
+		auth0, peer0 := w.ident(who)
+		blob, err := tryExport(c, w, who)
 		tried = tried || traffic > 0
 		if err == nil && c.Rng.Intn(3) != 0 {
-			if w.importBlob(who, blob) == nil {
+			handoffSeq++
+			remote := fmt.Sprintf("@handoff-%d", handoffSeq)
+			if w.importBlobAround(who, blob, remote) == nil {
 				handoffs++
+				// ---- property oracle C15: the imported stream continues THE SAME session: it reports the
+				// exporter's authentication status and the exporter's peer (not whatever the connection it was
+				// rebuilt around calls its remote end). A session that never knew its peer takes the connection's. ----
+				auth1, peer1 := w.ident(who)
+				if auth1 != auth0 {
+					c.Violate(Violation{Property: "C15", Key: "C15:identity-not-restored:authenticated", What: "the imported stream does not report the authentication status the exporting stream had",
+						Ops: append([]string{}, w.ops...), Expected: fmt.Sprint(auth0), Observed: fmt.Sprint(auth1)})
+				}
+				wantPeer := peer0
+				if peer0 == "" {
+					wantPeer = "<" + remote + ">"
+				}
+				if peer1 != wantPeer {
+					c.Violate(Violation{Property: "C15", Key: "C15:identity-not-restored:peer-address", What: "the imported stream does not report the peer address of the session that was handed over",
+						Ops: append([]string{}, w.ops...), Expected: wantPeer, Observed: peer1})
+				}
+				c.Count("handoff-ident:auth=" + b01(auth0) + ":peer-known=" + b01(peer0 != ""))
 			}
 		}
 	}
@@ -1261,5 +1781,21 @@ func handoffBlobMutations(c *Ctx) []Case {
 		try(fmt.Sprintf("corrupt %d", i), m, i < 6) // magic and version bytes must be rejected
 	}
 	try("extend 3", append(append([]byte{}, blob...), 1, 2, 3), false)
+	// every other version, named: older (0), newer (2), far (0x0100, 0x0101, 0xffff) — "wrong-version blobs"
+	for _, v := range []uint16{0, 2, 3, 0x0100, 0x0101, 0x7fff, 0x8001, 0xffff} {
+		m := append([]byte{}, blob...)
+		binary.BigEndian.PutUint16(m[4:6], v)
+		try(fmt.Sprintf("version %d", v), m, true)
+	}
+	// mis-tagged: magic in another case, rotated, reversed, cut short, and the whole blob shifted by one
+	// byte either way (a leading pad byte; the first byte lost)
+	for _, mg := range []string{"cdrx", "CDRx", "cDRX", "Cdrx", "DRXC", "XCDR", "XRDC", "CDR\x00", "CDRY", "\x00CDR", "CDR ", "    "} {
+		m := append([]byte{}, blob...)
+		copy(m[:4], mg)
+		try("magic "+hexOrDash([]byte(mg)), m, true)
+	}
+	try("shift +1", append([]byte{0}, blob...), true)
+	try("shift +1C", append([]byte{'C'}, blob...), true)
+	try("shift -1", append([]byte{}, blob[1:]...), true)
 	return cases
 }
